@@ -199,7 +199,9 @@ impl<'a> Cx<'a> {
             StmtEnum::Let(p, _, e) => json!(["let", self.pat(p)?, self.expr(e)?]),
             StmtEnum::LetMut(x, _, e) => json!(["letmut", x, self.expr(e)?]),
             StmtEnum::VarAssign(x, path, e) => {
+                let mut site = None;
                 if path.iter().any(|(a, _)| matches!(a, Accessor::ArrayAccess { .. })) {
+                    site = Some(self.sites.len());
                     self.sites.push(json!({"kinds": ["OutOfBounds"], "meta": meta_json(&s.meta), "node": "assign"}));
                 }
                 let mut steps = vec![];
@@ -210,7 +212,10 @@ impl<'a> Cx<'a> {
                         Accessor::StructAccess { field, .. } => json!(["f", field]),
                     });
                 }
-                json!(["assign", x, steps, self.expr(e)?])
+                match site {
+                    Some(k) => json!(["assign", x, steps, self.expr(e)?, {"site": k}]),
+                    None => json!(["assign", x, steps, self.expr(e)?]),
+                }
             }
             StmtEnum::ForEachLoop(p, a, body) => json!(["for", self.pat(p)?, self.expr(a)?, self.stmts(body)?]),
             StmtEnum::JoinLoop(p, _, (a, b), body) => {
